@@ -42,18 +42,33 @@ def id_text(i):
 
 
 def kh_text(entries):
-    return "".join(",".join(id_text(i) for i in e["ids"]) + f" {e['kt']} {e['key']}\n" for e in entries)
+    """one line per entry.  Optional decoration of the RAW line: "pre" (text before the host field: leading blanks, `#`,
+    `@revoked ` …), "sep" (separator between the three fields, default one blank), "post" (text after the key: a comment,
+    a fourth token).  The oracle's reading of such a file is written here, independently of scrapli's regex (OpenSSH
+    known_hosts format): a line whose first non-blank character is `#` or `@` contributes NOTHING ("inert"); otherwise the
+    fields are separated by runs of blanks / tabs, the key is the THIRD field, the rest of the line is a comment."""
+    return "".join(e.get("pre", "") + ",".join(id_text(i) for i in e["ids"]) + e.get("sep", " ") + e["kt"] + e.get("sep", " ") +
+                   e["key"] + e.get("post", "") + "\n" for e in entries)
+
+
+def inert(e):
+    return e.get("pre", "").lstrip(" \t")[:1] in ("#", "@")
+
+
+def live(entries):
+    """the entries a known_hosts reader may use (the model gets exactly these)"""
+    return [e for e in entries if not inert(e)]
 
 
 def names(e, host):
     """independent reading of "this line is for that host": plain name equal, or |1| hash of the host"""
-    return any((i[0] == "p" and i[1] == host) or (i[0] == "h" and i[2] == host) for i in e["ids"])
+    return (not inert(e)) and any((i[0] == "p" and i[1] == host) or (i[0] == "h" and i[2] == host) for i in e["ids"])
 
 
 def model_entries(entries, host):
     """-> (hmac table field, entries field) of the model's line protocol"""
     salts, out = [], []
-    for e in entries:
+    for e in live(entries):
         ids = []
         for i in e["ids"]:
             if i[0] == "p":
@@ -99,6 +114,22 @@ def structured_entries(fmt, content, host, right, other, decoy="192.0.2.1"):
     ut, uk = unusable_key("trunc", right, other)
     es.append({"ids": [("p", "192.0.2.2")], "kt": ut, "key": uk})
     kind, _, variant = content.partition(":")
+    hid = {"plain": [("p", host)], "comma": [("p", "router9"), ("p", host), ("p", "192.0.2.77")], "hashed": [("h", salt, host)]}[fmt]
+    if kind == "marker":
+        # the host's line holds the RIGHT key but is revoked / a CA line / commented out: it must not make the key trusted
+        pre = {"revoked": "@revoked ", "cert-authority": "@cert-authority ", "comment": "# ", "comment-tight": "#", "blank-comment": "  \t# ",
+               "blank-revoked": " @revoked "}[variant]
+        es.append({"ids": hid, "kt": right[0], "key": right[1], "pre": pre})
+        return es
+    if kind == "rawfmt":
+        if variant == "tabs":               # right key, leading blanks, tab-separated, trailing comment: TRUSTED
+            es.append({"ids": hid, "kt": right[0], "key": right[1], "pre": " \t", "sep": "\t \t", "post": "\troot@bastion  2021"})
+        elif variant == "comment-is-right": # other key; the trailing comment happens to be the right key: NOT trusted
+            es.append({"ids": hid, "kt": other[0], "key": other[1], "post": " " + right[1]})
+        elif variant == "commented-then-other":   # the right key commented out, a live line with another key
+            es.append({"ids": hid, "kt": right[0], "key": right[1], "pre": "#"})
+            es.append({"ids": hid, "kt": other[0], "key": other[1], "sep": "  "})
+        return es
     if kind == "nearmiss":
         nm = near_name(host, variant)
         ids = {"plain": [("p", nm)], "comma": [("p", nm), ("p", "lab-sw1")], "hashed": [("h", salt, nm), ("p", nm)]}[fmt]
@@ -111,8 +142,10 @@ def structured_entries(fmt, content, host, right, other, decoy="192.0.2.1"):
     return es
 
 
-CONTENTS_UNTRUSTED = ["absent", "other"] + [f"unusable:{v}" for v in UNUSABLE] + [f"nearmiss:{v}" for v in NEAR]
-CONTENTS_ALL = ["right", "unusable:mislabel-right"] + CONTENTS_UNTRUSTED
+MARKERS = ("revoked", "cert-authority", "comment", "comment-tight", "blank-comment", "blank-revoked")
+CONTENTS_UNTRUSTED = (["absent", "other"] + [f"unusable:{v}" for v in UNUSABLE] + [f"nearmiss:{v}" for v in NEAR] +
+                      [f"marker:{v}" for v in MARKERS] + ["rawfmt:comment-is-right", "rawfmt:commented-then-other"])
+CONTENTS_ALL = ["right", "unusable:mislabel-right", "rawfmt:tabs"] + CONTENTS_UNTRUSTED
 
 # names that are proper prefixes / suffixes / infixes of one another, plus unrelated ones
 HOSTS = ["r1", "r2", "r10", "r11", "xr1", "r", "1", "r1.example.com", "example.com", "R1",
@@ -136,7 +169,14 @@ def random_entries(rng, keys, host=None):
             else:
                 ids.append(("p", h))
         kt, key = rng.choice(keys)
-        es.append({"ids": ids, "kt": kt, "key": key})
+        e = {"ids": ids, "kt": kt, "key": key}
+        r = rng.random()
+        if r < 0.12:
+            e["pre"] = rng.choice(["@revoked ", "@cert-authority ", "# ", "#", " \t#", " @revoked "])
+        elif r < 0.3:
+            e.update(rng.choice([{"pre": "  "}, {"sep": "\t"}, {"sep": "   "}, {"post": " a comment"}, {"post": "\t" + rng.choice(keys)[1]},
+                                 {"pre": "\t", "sep": " \t", "post": "  x y z"}]))
+        es.append(e)
     return es
 
 
@@ -157,7 +197,7 @@ def importable(kt, key):
 
 def unimportable_field(entries):
     bad = []
-    for e in entries:
+    for e in live(entries):
         if not importable(e["kt"], e["key"]) and (e["kt"], e["key"]) not in bad:
             bad.append((e["kt"], e["key"]))
     return ",".join(f"{hx(a)}:{hx(b)}" for a, b in bad) or "."
@@ -228,7 +268,11 @@ def ssh_G(argv):
 
 # ------------------------------------------------------------------ misc
 def matcher(case):
-    """F19: asyncssh, strict, the host IS in known_hosts but with a different key"""
+    """F27: asyncssh, strict, AND the user's transport_options["asyncssh"] carry `known_hosts: None` (at the attempt
+    concerned).  (F19 — asyncssh, strict, host present with a different key — is fixed; its predicate is kept for
+    the record: a finding that is not open attributes nothing.)"""
+    if case.get("transport") == "asyncssh" and case.get("strict") is True and case.get("user_unpins") is True:
+        return "F27"
     if case.get("transport") == "asyncssh" and case.get("strict") is True and case.get("content") == "other":
         return FID
     return None
@@ -259,7 +303,7 @@ AUTHS = {"password": dict(hasKey=False, hasPw=True), "key": dict(hasKey=True, ha
 
 
 def env_bits(cfg):
-    return "".join("1" if cfg[k] else "0" for k in ("strict", "hasKey", "keyLoads", "hasPw", "hasUser", "kexOK", "accKey", "accPw"))
+    return "".join("1" if cfg.get(k) else "0" for k in ("strict", "hasKey", "keyLoads", "hasPw", "hasUser", "kexOK", "accKey", "accPw", "userUnpins"))
 
 
 def run(tier, seed):
@@ -284,8 +328,13 @@ def run(tier, seed):
                       "loopback server on the explored configurations, not modelled or proved",
                       "ssh2-python is not installed: Ssh2Transport.open() is modelled by reading; its call order is executed only over a "
                       "stub `ssh2` package written from the calls scrapli makes — the real library is never run",
-                      "HMAC-SHA1, base64 are parameters of the model (real ones in the harness); known_hosts lines are the three-token lines "
-                      "scrapli's own regex accepts (markers, wildcards, [host]:port forms are outside the property)",
+                      "HMAC-SHA1, base64 and `asyncssh.import_public_key` are parameters of the model (real ones in the harness); the text -> "
+                      "entries step of known_hosts is not modelled: the rigs write raw lines (leading blanks, tabs, trailing comments, `#` and "
+                      "`@revoked` / `@cert-authority` lines) and hand the model the entries an oracle written independently of scrapli's regex "
+                      "extracts; CRLF files, wildcards / negations and [host]:port forms are outside",
+                      "asyncssh: the full statement is proved under `transport_options[\"asyncssh\"]` not carrying `known_hosts: None` "
+                      "(asyncssh_current_partial); outside that hypothesis it is REFUTED for the source up to 614e50e (open finding F27, "
+                      "fix patch fixes/C10-asyncssh-pin-after-user-options.patch) and exercised by rigs B, D, H1",
                       "the loopback server offers password and publickey only (no keyboard-interactive)"]
     # ---- 1 translate, 2 prove
     try:
@@ -343,7 +392,7 @@ def run(tier, seed):
 
     def norm_entries(entries):
         return [{"ids": [tuple(i) if i[0] == "p" else (i[0], bytes.fromhex(i[1]) if isinstance(i[1], str) else i[1], i[2]) for i in e["ids"]],
-                 "kt": e["kt"], "key": e["key"]} for e in entries]
+                 "kt": e["kt"], "key": e["key"], **{k: e[k] for k in ("pre", "sep", "post") if k in e}} for e in entries]
 
     def rig_A():
         lk_cases = [(c["entries"], c["host"], "corpus") for c in corpus if c.get("kind") == "lookup"]
@@ -404,10 +453,11 @@ def run(tier, seed):
         trusted = any(e["key"] == k_srv[1] for e in naming)
         unus = any(not importable(e["kt"], e["key"]) for e in naming)
         case = {"rig": "fakes", "transport": lib, "strict": cfg["strict"], "content": content, "format": fmt, "auth": auth,
-                "cfg": {k: cfg[k] for k in LF.BITS}, "known_hosts": kh_text(entries), "host": host, "trace": tr}
+                "user_unpins": bool(cfg.get("userUnpins")), "cfg": {k: cfg.get(k, False) for k in LF.BITS}, "known_hosts": kh_text(entries),
+                "host": host, "trace": tr}
         ck.case(("fk", lib, env_bits(cfg), kh_text(entries)), nontrivial=cfg["strict"] and not trusted,
                 tags=(f"B:{lib}", f"B:strict={cfg['strict']}", f"B:content={content.split(':')[0]}", f"B:format={fmt}", f"B:auth={auth}",
-                      f"B:host-line-key-unusable={unus}", *tagx),
+                      f"B:host-line-key-unusable={unus}", f"B:user-options-known_hosts-None={bool(cfg.get('userUnpins'))}", *tagx),
                 sample={k: case[k] for k in ("transport", "strict", "content", "format", "auth", "trace")})
         bad = trace_oracle(cfg["strict"], trusted, cfg["kexOK"], tr, key_usable=lib != "asyncssh" or not cfg["hasKey"] or cfg["keyLoads"])
         if bad:
@@ -423,8 +473,8 @@ def run(tier, seed):
                 ck.traces_validated += 1
         ask(f"openkh {lib} {env_bits(cfg)} {hx(host)} {hx(k_srv[1])} {tbl} {unimportable_field(entries)} {ents}", cmp)
 
-    def cfg_of(strict, auth, key_loads=True, acc=(True, True), kex=True, user=True):
-        return dict(strict=strict, keyLoads=key_loads, hasUser=user, kexOK=kex, accKey=acc[0], accPw=acc[1], **AUTHS[auth])
+    def cfg_of(strict, auth, key_loads=True, acc=(True, True), kex=True, user=True, unpin=False):
+        return dict(strict=strict, keyLoads=key_loads, hasUser=user, kexOK=kex, accKey=acc[0], accPw=acc[1], userUnpins=unpin, **AUTHS[auth])
 
     def rig_B():
         for c in corpus:
@@ -446,11 +496,18 @@ def run(tier, seed):
                                 fake_case(lib, cfg_of(strict, auth, kex=False), es, content, fmt, auth, ("B:handshake-fails",))
                         if full:
                             fake_case(lib, cfg_of(strict, "both", user=False, acc=(False, True)), es, content, fmt, "both", ("B:no-username",))
+            # the user's transport options ask the library for `known_hosts: None`: strict checking must hold all the same
+            for strict in (True, False):
+                for content in CONTENTS_ALL:
+                    for fmt in (("plain", "comma", "hashed") if tier == "thorough" else ("plain",)):
+                        es = structured_entries(fmt, content, host, k_srv, k_other)
+                        for auth in ("password", "both"):
+                            fake_case(lib, cfg_of(strict, auth, unpin=True), es, content, fmt, auth)
             for _ in range(150 if tier == "quick" else 3000):
                 es = random_entries(ck.rng, keys, host if ck.rng.random() < 0.8 else None)
                 auth = ck.rng.choice(list(AUTHS))
                 cfg = cfg_of(ck.rng.random() < 0.8, auth, ck.rng.random() < 0.8, ck.rng.choice([(True, True), (False, True), (False, False)]),
-                             ck.rng.random() < 0.9)
+                             ck.rng.random() < 0.9, unpin=ck.rng.random() < 0.2)
                 nm = [e["key"] == k_srv[1] for e in es if names(e, host)]
                 content = "absent" if not nm else "right" if all(nm) else "other" if not any(nm) else "mixed"
                 fake_case(lib, cfg, es, content, "random", auth, ("B:random-known_hosts",))
@@ -467,8 +524,8 @@ def run(tier, seed):
     H_CONTENTS = ["absent", "right", "other", "unusable:trunc", "nearmiss:sfx"]
 
     def bits11(cfg):
-        return "".join("1" if cfg[k] else "0" for k in ("strict", "found", "equal", "importable", "hasKey", "keyLoads", "hasPw", "hasUser",
-                                                          "kexOK", "accKey", "accPw"))
+        return "".join("1" if cfg.get(k) else "0" for k in ("strict", "found", "equal", "importable", "hasKey", "keyLoads", "hasPw", "hasUser",
+                                                              "kexOK", "accKey", "accPw", "userUnpins"))
 
     def abstract(es, h, right_b64, cfg):
         nm = [e for e in es if names(e, h)]
@@ -477,12 +534,13 @@ def run(tier, seed):
                     importable=he is not None and importable(he["kt"], he["key"]))
 
     def fake_history(lib, steps, auth, strict=True, tagx=()):
-        """steps: [(content, fmt, close_before, acc, kexOK)]"""
+        """steps: [(content, fmt, close_before, acc, kexOK[, new transport object[, user options carry known_hosts None]])]"""
+        steps = [tuple(st) + (False, False)[len(st) - 5:] for st in steps]
         atts, metas = [], []
-        for content, fmt, close, acc, kex in steps:
+        for content, fmt, close, acc, kex, new, unpin in steps:
             es = structured_entries(fmt, content, host, k_srv, k_other)
-            cfg = cfg_of(strict, auth, acc=acc, kex=kex)
-            atts.append({"cfg": cfg, "close": close, "text": kh_text(es)})
+            cfg = cfg_of(strict, auth, acc=acc, kex=kex, unpin=unpin)
+            atts.append({"cfg": cfg, "close": close, "text": kh_text(es), "new": new})
             metas.append((es, cfg))
         kh = write_kh([])
         try:
@@ -495,8 +553,8 @@ def run(tier, seed):
         except Exception as e:
             res = [([f"harness-exception:{type(e).__name__}:{e}"[:120].replace(" ", "_").replace(",", ";")], False)] * len(atts)
         case = {"rig": "fakes-history", "transport": lib, "strict": strict, "auth": auth,
-                "attempts": [{"content": c, "format": f, "close_before": cl, "server_accepts": list(acc), "handshake_ok": kx}
-                             for c, f, cl, acc, kx in steps],
+                "attempts": [{"content": c, "format": f, "close_before": cl, "server_accepts": list(acc), "handshake_ok": kx,
+                              "new_transport_object": nw, "user_unpins": up} for c, f, cl, acc, kx, nw, up in steps],
                 "traces": [tr for tr, _ in res]}
         nt = False
         for i, ((es, cfg), (tr, _)) in enumerate(zip(metas, res)):
@@ -505,13 +563,14 @@ def run(tier, seed):
             bad = trace_oracle(strict, trusted, cfg["kexOK"], [x for x in tr if not x.startswith("close-raised")],
                                key_usable=lib != "asyncssh" or not cfg["hasKey"] or cfg["keyLoads"])
             if bad:
-                ck.violation({**case, "attempt": i + 1, "content": steps[i][0]},
-                             f"{lib} (library fakes), attempt {i + 1} of a history on ONE transport object: {bad}", matcher)
+                ck.violation({**case, "attempt": i + 1, "content": steps[i][0], "user_unpins": steps[i][6]},
+                             f"{lib} (library fakes), attempt {i + 1} of a history in one process "
+                             f"({'a new transport object on the same known_hosts path' if steps[i][5] else 'the same transport object'}): {bad}", matcher)
         ck.case(("fh", lib, auth, strict, tuple(steps)), nontrivial=nt,
                 tags=(f"H1:{lib}", f"H1:attempts={len(steps)}", "H1:close-between=" + "".join(str(int(x[2])) for x in steps[1:]),
-                      "H1:" + "→".join(x[0].split(":")[0] for x in steps), *tagx),
+                      "H1:new-object=" + "".join(str(int(x[5])) for x in steps[1:]), "H1:" + "→".join(x[0].split(":")[0] for x in steps), *tagx),
                 sample={k: case[k] for k in ("transport", "auth", "attempts", "traces")})
-        line = f"hist {lib} " + ";".join(f"{int(at['close'])}:{bits11(abstract(es, host, k_srv[1], cfg))}" for at, (es, cfg) in zip(atts, metas))
+        line = f"hist {lib} " + ";".join(f"{int(at['close'] or at['new'])}:{bits11(abstract(es, host, k_srv[1], cfg))}" for at, (es, cfg) in zip(atts, metas))
 
         def cmp(reply, res=res, case=case):
             parts = reply.split("|")
@@ -547,6 +606,16 @@ def run(tier, seed):
                 fake_history(lib, [(a1, "plain", False, OK, True), (a2, ck.rng.choice(["plain", "comma", "hashed"]), x2, OK, ck.rng.random() < 0.9),
                                    (a3, "plain", x3, ck.rng.choice([OK, (False, True), (False, False)]), True)], ck.rng.choice(list(AUTHS)))
             fake_history(lib, [("right", "plain", False, OK, True), ("other", "plain", False, OK, True)], "password", strict=False, tagx=("H1:non-strict",))
+            # the known_hosts FILE is edited between two connections of one process: same object, and a NEW object on the same path
+            for c1 in H_CONTENTS + ["marker:revoked"]:
+                for c2 in H_CONTENTS + ["marker:revoked"]:
+                    fake_history(lib, [(c1, "plain", False, OK, True), (c2, "plain", False, OK, True, True)], "password", tagx=("H1:file-edited-new-object",))
+            fake_history(lib, [("right", "hashed", False, OK, True), ("right", "hashed", True, OK, True), ("other", "hashed", False, OK, True, True)], "both",
+                         tagx=("H1:file-edited-new-object",))
+            # the user's options ask for known_hosts None at some attempt
+            for c1, c2 in (("right", "other"), ("other", "other"), ("absent", "other"), ("other", "right")):
+                for close in (False, True):
+                    fake_history(lib, [(c1, "plain", False, OK, True), (c2, "plain", close, OK, True, False, True)], "password", tagx=("H1:user-unpins",))
     guarded("H1 (histories over library fakes)", rig_H1)
 
     # ================= C: system transport
@@ -648,11 +717,17 @@ def run(tier, seed):
                             for fmt in ("plain", "comma", "hashed"):
                                 for auth in (("password", "key", "both") if content in ("absent", "right", "other") else ("password",)):
                                     rig_cases.append((tr, strict, content, fmt, auth, "rsa" if fmt != "comma" else "ed25519"))
+                # the user's transport options carry `known_hosts: None`
+                for content in ("other", "absent", "unusable:trunc", "marker:revoked", "nearmiss:sfx", "right"):
+                    for auth in (("password", "key") if content == "other" else ("password",)):
+                        rig_cases.append((tr, True, content, "plain", auth, "rsa", True))
+                rig_cases.append((tr, False, "other", "plain", "password", "rsa", True))
+            rig_cases = [rc if len(rc) == 7 else rc + (False,) for rc in rig_cases]
             seen_keys = set()
             results = []
 
             def host_entry(rc):
-                tr, strict, content, fmt, auth, ok = rc
+                tr, strict, content, fmt, auth, ok, unpin = rc
                 es = structured_entries(fmt, content, LB.HOST, rig.right, rig.other if ok == "rsa" else rig.other_ed)
                 nm = [e for e in es if names(e, LB.HOST)]
                 return es, (nm[-1] if nm else None)
@@ -663,16 +738,16 @@ def run(tier, seed):
                     if rc in seen_keys:
                         continue
                     seen_keys.add(rc)
-                    tr, strict, content, fmt, auth, ok = rc
+                    tr, strict, content, fmt, auth, ok, unpin = rc
                     es, he = host_entry(rc)
                     trusted = he is not None and he["key"] == rig.right[1]
                     kh = rig.write(kh_text(es))
                     for attempt in (0, 1):
                         t0 = time.time()
                         if tr == "paramiko":
-                            out, seen = await loop.run_in_executor(None, rig.run_paramiko, auth, strict, kh)
+                            out, seen = await loop.run_in_executor(None, rig.run_paramiko, auth, strict, kh, unpin)
                         else:
-                            out, seen = await rig.run_asyncssh(auth, strict, kh)
+                            out, seen = await rig.run_asyncssh(auth, strict, kh, unpin)
                         expect_ok = (not strict) or content == "right"
                         if expect_ok and out != "ok" and attempt == 0:
                             continue   # one retry for accept cases (machine load)
@@ -682,11 +757,12 @@ def run(tier, seed):
                     results.append((rc, out, seen, kh_text(es), he, trusted))
             asyncio.run(drive())
             for rc, out, seen, text, he, trusted in results:
-                tr, strict, content, fmt, auth, ok = rc
+                tr, strict, content, fmt, auth, ok, unpin = rc
                 case = {"rig": "loopback", "transport": tr, "strict": strict, "content": content, "format": fmt, "auth": auth,
-                        "other_key_type": ok, "outcome": out, "server_saw": [k for k, _ in seen], "known_hosts": text, "host": LB.HOST}
+                        "user_unpins": unpin, "other_key_type": ok, "outcome": out, "server_saw": [k for k, _ in seen], "known_hosts": text, "host": LB.HOST}
                 ck.case(("lb",) + rc, nontrivial=strict and not trusted,
-                        tags=(f"D:{tr}", f"D:strict={strict}", f"D:content={content.split(':')[0]}", f"D:format={fmt}", f"D:auth={auth}"),
+                        tags=(f"D:{tr}", f"D:strict={strict}", f"D:content={content.split(':')[0]}", f"D:format={fmt}", f"D:auth={auth}",
+                              f"D:user-options-known_hosts-None={unpin}"),
                         sample={k: v for k, v in case.items() if k != "known_hosts"})
                 if strict and not trusted:
                     if seen:
@@ -695,9 +771,8 @@ def run(tier, seed):
                     elif out != "ScrapliAuthenticationFailed":
                         ck.violation(case, f"REAL {tr}: strict, content '{content}': ended in {out}, not ScrapliAuthenticationFailed", matcher)
                 cfg = dict(strict=strict, found=he is not None, equal=trusted, importable=he is not None and importable(he["kt"], he["key"]),
-                           keyLoads=True, hasUser=True, kexOK=True, accKey=True, accPw=True, **AUTHS[auth])
-                b = "".join("1" if cfg[k] else "0" for k in ("strict", "found", "equal", "importable", "hasKey", "keyLoads", "hasPw", "hasUser",
-                                                               "kexOK", "accKey", "accPw"))
+                           keyLoads=True, hasUser=True, kexOK=True, accKey=True, accPw=True, userUnpins=unpin, **AUTHS[auth])
+                b = bits11(cfg)
 
                 def cmp(reply, case=case, out=out, seen=seen):
                     evs = reply.split(" ")[0].split(",")
@@ -713,7 +788,7 @@ def run(tier, seed):
         guarded("D (loopback server)", rig_D)
         # ================= H2: HISTORIES against the recording server — REAL libraries, ONE transport object
         def rig_H2():
-            hs = [(c["transport"], c["auth"], [(x["content"], x["close_before"]) for x in c["attempts"]])
+            hs = [(c["transport"], c["auth"], [(x["content"], x["close_before"], x.get("new_transport_object", False)) for x in c["attempts"]])
                   for c in corpus if c.get("kind") == "history" and c.get("transport") in ("paramiko", "asyncssh")]
             cont = ["absent", "right", "other", "unusable:trunc"]
             for c1 in cont:
@@ -727,6 +802,13 @@ def run(tier, seed):
                    ("paramiko", "key", [("other", False), ("other", True), ("right", True)]),
                    ("asyncssh", "both", [("other", False), ("absent", False), ("right", True)]),
                    ("asyncssh", "key", [("right", False), ("other", False), ("other", True)])]
+            # the known_hosts FILE is edited between two connections of one process, the second on a NEW transport object (same path)
+            for c1 in cont + ["marker:revoked"]:
+                for c2 in cont + ["marker:revoked"]:
+                    if c1 != c2 or tier == "thorough":
+                        hs.append(("asyncssh", "password", [(c1, False), (c2, False, True)]))
+                        hs.append(("paramiko", "password", [(c1, False), (c2, False, True)]))
+            hs = [(tr, auth, [tuple(st) + (False,) * (3 - len(st)) for st in steps]) for tr, auth, steps in hs]
             done = set()
             results = []
 
@@ -737,8 +819,8 @@ def run(tier, seed):
                     if k in done:
                         continue
                     done.add(k)
-                    ess = [structured_entries("plain", c, LB.HOST, rig.right, rig.other) for c, _ in steps]
-                    atts = [{"close": cl, "text": kh_text(es)} for es, (_, cl) in zip(ess, steps)]
+                    ess = [structured_entries("plain", c, LB.HOST, rig.right, rig.other) for c, _, _ in steps]
+                    atts = [{"close": cl, "text": kh_text(es), "new": nw} for es, (_, cl, nw) in zip(ess, steps)]
                     kh = rig.write("")
                     if tr == "paramiko":
                         res = await loop.run_in_executor(None, rig.history_paramiko, auth, True, kh, atts)
@@ -748,18 +830,19 @@ def run(tier, seed):
             asyncio.run(drive())
             for tr, auth, steps, ess, res in results:
                 case = {"rig": "loopback-history", "transport": tr, "strict": True, "auth": auth,
-                        "attempts": [{"content": c, "format": "plain", "close_before": cl} for c, cl in steps],
+                        "attempts": [{"content": c, "format": "plain", "close_before": cl, "new_transport_object": nw} for c, cl, nw in steps],
                         "outcomes": [o for o, _ in res], "server_saw": [[k for k, _ in sn] for _, sn in res]}
                 nt = False
                 cfgs = []
                 for i, (es, (out, seen)) in enumerate(zip(ess, res)):
                     trusted = any(e["key"] == rig.right[1] for e in es if names(e, LB.HOST))
                     nt = nt or (not trusted and i > 0)
-                    retry_same_socket = i > 0 and not steps[i][1]
+                    retry_same_socket = i > 0 and not steps[i][1] and not steps[i][2]
                     if not trusted:
                         if seen:
                             ck.violation({**case, "attempt": i + 1, "content": steps[i][0]},
-                                         f"REAL {tr} against the recording server, attempt {i + 1} on ONE transport object: strict, known_hosts content "
+                                         f"REAL {tr} against the recording server, attempt {i + 1} of a history in one process "
+                                         f"({'new transport object, same known_hosts path' if steps[i][2] else 'same transport object'}): strict, known_hosts content "
                                          f"'{steps[i][0]}' at that attempt, yet the server was shown {[k for k, _ in seen]} ({out})", matcher)
                         elif out != "ScrapliAuthenticationFailed" and not (retry_same_socket and out == "ScrapliConnectionNotOpened"):
                             ck.violation({**case, "attempt": i + 1, "content": steps[i][0]},
@@ -768,8 +851,9 @@ def run(tier, seed):
                     cfgs.append(abstract(es, LB.HOST, rig.right[1], dict(strict=True, keyLoads=True, hasUser=True, accKey=True, accPw=True,
                                                                          kexOK=out != "ScrapliConnectionNotOpened", **AUTHS[auth])))
                 ck.case(("lh", tr, auth, tuple(steps)), nontrivial=nt,
-                        tags=(f"H2:{tr}", f"H2:attempts={len(steps)}", "H2:close-between=" + "".join(str(int(c)) for _, c in steps[1:]),
-                              "H2:" + "→".join(c.split(":")[0] for c, _ in steps)), sample=case)
+                        tags=(f"H2:{tr}", f"H2:attempts={len(steps)}", "H2:close-between=" + "".join(str(int(c)) for _, c, _ in steps[1:]),
+                              "H2:new-object=" + "".join(str(int(n)) for _, _, n in steps[1:]),
+                              "H2:" + "→".join(c.split(":")[0] for c, _, _ in steps)), sample=case)
 
                 def cmp(reply, case=case, res=res):
                     ok = True
@@ -782,9 +866,17 @@ def run(tier, seed):
                         ck.disagree(f"HostKey model vs REAL {case['transport']} HISTORY against the loopback server", case, f"model={reply}")
                     else:
                         ck.traces_validated += 1
-                ask(f"hist {tr} " + ";".join(f"{int(cl)}:{bits11(c)}" for (_, cl), c in zip(steps, cfgs)), cmp)
+                ask(f"hist {tr} " + ";".join(f"{int(cl or nw)}:{bits11(c)}" for (_, cl, nw), c in zip(steps, cfgs)), cmp)
         guarded("H2 (histories against the loopback server)", rig_H2)
-        # ---- an OPEN known finding: replay its stored witness on the real code
+        # ---- OPEN known findings: replay the stored witness on the real code
+        f27 = next((f for f in ck.findings if f["id"] == "F27" and f.get("status") == "open"), None)
+        if f27:
+            w = f27["witness"]
+            es = structured_entries(w["format"], w["content"], LB.HOST, rig.right, rig.other)
+            out, seen = asyncio.run(rig.run_asyncssh(w["auth"], w["strict"], rig.write(kh_text(es)), True))
+            if seen:
+                ck.known_finding("F27", f27["what"])
+            ck.extra["F27_witness_server_saw"] = [k for k, _ in seen]
         f19 = next((f for f in ck.findings if f["id"] == FID and f.get("status") == "open"), None)
         if f19:
             w = f19["witness"]
@@ -889,9 +981,9 @@ def replay(path):
             kh = rig.write(kh_text(es))
             trusted = any(e["key"] == rig.right[1] for e in es if names(e, LB.HOST))
             if v["transport"] == "paramiko":
-                out, seen = rig.run_paramiko(v["auth"], v["strict"], kh)
+                out, seen = rig.run_paramiko(v["auth"], v["strict"], kh, bool(v.get("user_unpins")))
             else:
-                out, seen = asyncio.run(rig.run_asyncssh(v["auth"], v["strict"], kh))
+                out, seen = asyncio.run(rig.run_asyncssh(v["auth"], v["strict"], kh, bool(v.get("user_unpins"))))
         finally:
             rig.stop()
         print("known_hosts:\n" + kh_text(es) + "outcome", out, "; server saw", seen)
@@ -932,8 +1024,8 @@ def replay(path):
                 es = structured_entries(x.get("format", "plain"), x["content"], "r1", right, other)
                 acc = x.get("server_accepts", [True, True])
                 cfg = dict(strict=v["strict"], keyLoads=True, hasUser=True, kexOK=x.get("handshake_ok", True), accKey=acc[0], accPw=acc[1],
-                           **AUTHS[v["auth"]])
-                atts.append({"cfg": cfg, "close": x["close_before"], "text": kh_text(es)})
+                           userUnpins=bool(x.get("user_unpins")), **AUTHS[v["auth"]])
+                atts.append({"cfg": cfg, "close": x["close_before"], "text": kh_text(es), "new": bool(x.get("new_transport_object"))})
                 trusted.append(any(e["key"] == right[1] for e in es if names(e, "r1")))
             p = tempfile.mktemp(prefix="c10-kh")
             open(p, "w").write("")
@@ -955,7 +1047,7 @@ def replay(path):
         rig = LB.Rig().start()
         try:
             ess = [structured_entries("plain", x["content"], LB.HOST, rig.right, rig.other) for x in steps]
-            atts = [{"close": x["close_before"], "text": kh_text(es)} for x, es in zip(steps, ess)]
+            atts = [{"close": x["close_before"], "text": kh_text(es), "new": bool(x.get("new_transport_object"))} for x, es in zip(steps, ess)]
             kh = rig.write("")
             if v["transport"] == "paramiko":
                 res = rig.history_paramiko(v["auth"], True, kh, atts)
@@ -964,7 +1056,7 @@ def replay(path):
             rc = 0
             for i, (es, (out, seen)) in enumerate(zip(ess, res)):
                 trusted = any(e["key"] == rig.right[1] for e in es if names(e, LB.HOST))
-                retry = i > 0 and not steps[i]["close_before"]
+                retry = i > 0 and not steps[i]["close_before"] and not steps[i].get("new_transport_object")
                 bad = (not trusted) and (bool(seen) or (out != "ScrapliAuthenticationFailed" and not (retry and out == "ScrapliConnectionNotOpened")))
                 print(f"attempt {i + 1} ({steps[i]['content']}, close before: {steps[i]['close_before']}): outcome {out}; server saw {seen}; violation: {bad}")
                 rc = rc or (1 if bad else 0)
